@@ -152,6 +152,18 @@ theorem auroc_empty (ts ws : List Q) : binaryAuroc [] ts ws = .error .runtime :=
   unfold binaryAuroc binPts aurocCore sortDesc
   simp [aurocSorted_nil]
 
+/-- why the label hypothesis cannot be dropped: `binary_auroc` multiplies by the
+    target, and for a fractional "label" the right-aligned `masked_scatter_`
+    leaves no origin point in front of the curve when all scores are distinct —
+    appending a sample of *zero* mass that merely ties with an existing score
+    then changes the result (2/3 vs 5/6; the real code returns 0.6667 / 0.8333
+    on `input=[1,.5]`, `target=[.5,0]` resp. with the extra `(.5, 0, weight 0)`).
+    Labels in {0,1} exclude this (`auroc_model_eq_spec`). -/
+theorem auroc_fractional_label_witness :
+    (aurocSorted [⟨1, 1/2, 1/2⟩, ⟨1/2, 0, 1⟩]).toOption = some (2/3)
+      ∧ (aurocSorted [⟨1, 1/2, 1/2⟩, ⟨1/2, 0, 1⟩, ⟨1/2, 0, 0⟩]).toOption = some (5/6) := by
+  decide +kernel
+
 /-! ## (d) multiclass AUROC = one-vs-rest binary AUROC per class, then the average -/
 
 /-- class `c` of `_multiclass_auroc_compute` is the binary definition on the
@@ -189,5 +201,296 @@ example : multiclassAuroc [[1/2, 1/2, 1], [1/2, 1/4, 0]] [0, 1, 0] .none = .ok [
   rw [multiclass_auroc_none_eq _ _ (by decide +kernel)]; exact congrArg _ (by decide +kernel)
 example : multiclassAuroc [[1/2, 1/2, 1], [1/2, 1/4, 0]] [0, 1, 0] .macro = .ok [.val (5/8)] := by
   rw [multiclass_auroc_macro_eq _ _ (by decide +kernel)]; exact congrArg _ (by decide +kernel)
+
+/-! ## (c) precision-recall curve, AUPRC, recall at fixed precision -/
+
+/-- **the curve of `_compute_for_each_class` = the definition**: one point per
+    distinct score (ascending), precision `TP(≥t)/(TP(≥t)+FP(≥t))` and recall
+    `TP(≥t)/P` by counting the samples scored at or above it, followed by the
+    point (precision 1, recall 0); no NaN survives (with no positive at all the
+    recall is `1`).  Every score vector, every label vector, `n ≥ 1`. -/
+theorem prCurve_model_eq_spec (xs ts : List Q) (hne : posLS xs ts ≠ []) :
+    binaryPrCurve xs ts = .ok
+      ⟨(prCurve (posLS xs ts)).precision.map XQ.val, (prCurve (posLS xs ts)).recall.map XQ.val,
+       (prCurve (posLS xs ts)).thresholds⟩ := by
+  unfold binaryPrCurve
+  rw [posPts_eq]
+  exact prCurveSorted_eq _ _ (sortDesc_perm _) (sortDesc_desc _) hne
+
+example : binaryPrCurve [1/2, 1/2, 1/4, 3/4] [1, 0, 1, 0]
+    = .ok ⟨[.val (1/2), .val (1/3), .val 0, .val 1], [.val 1, .val (1/2), .val 0, .val 0], [1/4, 1/2, 3/4]⟩ := by
+  rw [prCurve_model_eq_spec _ _ (by decide +kernel)]; exact congrArg _ (by decide +kernel)
+
+/-- whatever the sort does with tied samples. -/
+theorem prCurve_any_sort (xs ts : List Q) (srt : List Pt)
+    (hperm : srt.Perm (posPts xs ts))
+    (hsorted : srt.Pairwise fun x y => y.s ≤ x.s)
+    (hne : posLS xs ts ≠ []) :
+    prCurveSorted srt = .ok
+      ⟨(prCurve (posLS xs ts)).precision.map XQ.val, (prCurve (posLS xs ts)).recall.map XQ.val,
+       (prCurve (posLS xs ts)).thresholds⟩ := by
+  rw [posPts_eq] at hperm
+  exact prCurveSorted_eq _ _ hperm hsorted hne
+
+example : prCurveSorted [⟨1/2, 0, 1⟩, ⟨1/2, 1, 0⟩] = .ok ⟨[.val (1/2), .val 1], [.val 1, .val 0], [1/2]⟩
+    ∧ prCurveSorted [⟨1/2, 1, 0⟩, ⟨1/2, 0, 1⟩] = .ok ⟨[.val (1/2), .val 1], [.val 1, .val 0], [1/2]⟩ := by
+  constructor
+  · rw [prCurve_any_sort [1/2, 1/2] [1, 0] _ (by decide +kernel) (by decide +kernel) (by decide +kernel)]
+    exact congrArg _ (by decide +kernel)
+  · rw [prCurve_any_sort [1/2, 1/2] [1, 0] _ (by decide +kernel) (by decide +kernel) (by decide +kernel)]
+    exact congrArg _ (by decide +kernel)
+
+/-- the thresholds of the definition are exactly the distinct scores, strictly
+    ascending — the curve has exactly one point per distinct score, plus the appended one. -/
+theorem prCurve_one_point_per_distinct_score (ls : List LS) :
+    (prCurve ls).thresholds.Pairwise (· < ·)
+      ∧ (∀ t, t ∈ (prCurve ls).thresholds ↔ ∃ x ∈ ls, x.1 = t)
+      ∧ (prCurve ls).precision.length = (prCurve ls).thresholds.length + 1
+      ∧ (prCurve ls).recall.length = (prCurve ls).thresholds.length + 1 := by
+  refine ⟨distinctAsc_sorted _, ?_, by simp [prCurve], by simp [prCurve]⟩
+  intro t
+  show t ∈ distinctAsc _ ↔ _
+  rw [mem_distinctAsc, List.mem_map]
+
+example : (prCurve [(1/2, true), (1/4, false), (1/2, false)]).thresholds = [1/4, 1/2] := by decide +kernel
+
+/-- the definition does not depend on the order of the samples. -/
+theorem prCurveSpec_perm {l₁ l₂ : List LS} (h : l₁.Perm l₂) : prCurve l₁ = prCurve l₂ := by
+  have hT : distinctAsc (l₁.map (·.1)) = distinctAsc (l₂.map (·.1)) := by
+    apply strictAsc_ext _ _ (distinctAsc_sorted _) (distinctAsc_sorted _)
+    intro t
+    rw [mem_distinctAsc, mem_distinctAsc]
+    exact (h.map _).mem_iff
+  have htp : ∀ t, tpAt l₁ t = tpAt l₂ t := fun t => h.countP_eq _
+  have hfp : ∀ t, fpAt l₁ t = fpAt l₂ t := fun t => h.countP_eq _
+  have hn : nPos l₁ = nPos l₂ := h.countP_eq _
+  have hprec : precisionAt l₁ = precisionAt l₂ := by
+    funext t; unfold precisionAt; rw [htp, hfp]
+  have hrec : recallAt l₁ = recallAt l₂ := by
+    funext t; unfold recallAt; rw [htp, hn]
+  unfold prCurve
+  simp only [hT, hprec, hrec]
+
+example : prCurve [(1/2, true), (1/4, false)] = prCurve [(1/4, false), (1/2, true)] :=
+  prCurveSpec_perm (by decide +kernel)
+
+/-- the model's curve does not depend on the order of the samples. -/
+theorem prCurve_model_perm (xs ts xs' ts' : List Q)
+    (hp : (posLS xs ts).Perm (posLS xs' ts')) (hne : posLS xs ts ≠ []) :
+    binaryPrCurve xs ts = binaryPrCurve xs' ts' := by
+  have hne' : posLS xs' ts' ≠ [] := by
+    intro e; rw [e] at hp; exact hne (List.Perm.eq_nil hp)
+  rw [prCurve_model_eq_spec _ _ hne, prCurve_model_eq_spec _ _ hne', prCurveSpec_perm hp]
+
+example : binaryPrCurve [1/2, 1/4, 1/2] [1, 0, 0] = binaryPrCurve [1/4, 1/2, 1/2] [0, 0, 1] :=
+  prCurve_model_perm _ _ _ _ (by decide +kernel) (by decide +kernel)
+
+/-- **AUPRC = Σₖ (rₖ − rₖ₊₁)·pₖ** over the points of the definition's curve. -/
+theorem auprc_eq (xs ts : List Q) (hne : posLS xs ts ≠ []) :
+    binaryAuprc xs ts = .ok (.val (auprc (posLS xs ts))) := by
+  unfold binaryAuprc
+  rw [prCurve_model_eq_spec xs ts hne]
+  simp only [bind, Except.bind]
+  exact congrArg _ (auprcOf_curveX (prCurve (posLS xs ts)))
+
+example : binaryAuprc [1/2, 1/2, 1/4, 3/4] [1, 0, 1, 0] = .ok (.val (5/12)) := by
+  rw [auprc_eq _ _ (by decide +kernel)]; exact congrArg _ (by decide +kernel)
+
+theorem auprc_tasks_eq (rows : List (List Q × List Q)) (hne : ∀ r ∈ rows, posLS r.1 r.2 ≠ []) :
+    binaryAuprcTasks rows = .ok (rows.map fun r => XQ.val (auprc (posLS r.1 r.2))) := by
+  unfold binaryAuprcTasks
+  apply mapM_ok
+  intro r hr
+  exact auprc_eq _ _ (hne r hr)
+
+example : binaryAuprcTasks [([1/2, 1/4], [1, 0]), ([1/2, 1/4], [0, 1])] = .ok [.val 1, .val (1/2)] := by
+  rw [auprc_tasks_eq _ (by decide +kernel)]; exact congrArg _ (by decide +kernel)
+
+/-- **recall at fixed precision = the largest recall among the curve points
+    whose precision reaches the bound** (and the returned threshold is the
+    absolute value of the largest threshold among the points of that recall, the
+    appended point counting as −1), for every bound `≤ 1`. -/
+theorem recall_at_precision_eq (xs ts : List Q) (minP : Q) (hne : posLS xs ts ≠ []) (hp : minP ≤ 1) :
+    ∃ m t, binaryRecallAtPrecision xs ts minP = .ok (.val m, .val (qabs t))
+      ∧ IsMaxRecall (prCurve (posLS xs ts)) minP m
+      ∧ IsBestThreshold (prCurve (posLS xs ts)) m t := by
+  have hc := prCurve_one_point_per_distinct_score (posLS xs ts)
+  obtain ⟨m, t, h1, h2, h3⟩ := recallAtPrecision_curveX (prCurve (posLS xs ts)) minP hc.2.2.2 (by
+    refine ⟨(0, 1), ?_, hp⟩
+    simp only [prCurve]
+    rw [List.zip_append (by simp)]
+    simp)
+  refine ⟨m, t, ?_, h2, h3⟩
+  unfold binaryRecallAtPrecision
+  rw [prCurve_model_eq_spec xs ts hne]
+  simp only [bind, Except.bind]
+  exact h1
+
+/-- the executable oracle (`spec.binary_recall_at_fixed_precision`) computes that maximum. -/
+theorem recallAtPrecision_spec_isMax (ls : List LS) (bound r : Q)
+    (h : Spec.Curve.recallAtPrecision ls bound = some r) : IsMaxRecall (prCurve ls) bound r := by
+  unfold Spec.Curve.recallAtPrecision at h
+  obtain ⟨hm, hmax⟩ := maxOf_spec _ _ h
+  obtain ⟨rp, hrp, e⟩ := List.mem_map.mp hm
+  have := List.mem_filter.mp hrp
+  refine ⟨⟨rp, this.1, by simpa using this.2, e⟩, ?_⟩
+  intro q hq hqb
+  exact hmax _ (List.mem_map.mpr ⟨q, List.mem_filter.mpr ⟨hq, by simpa using hqb⟩, rfl⟩)
+
+example : ∃ m t, binaryRecallAtPrecision [1/2, 1/2, 1/4, 3/4] [1, 0, 1, 0] (1/2) = .ok (.val m, .val (qabs t))
+    ∧ IsMaxRecall (prCurve (posLS [1/2, 1/2, 1/4, 3/4] [1, 0, 1, 0])) (1/2) m :=
+  let ⟨m, t, h, hm, _⟩ := recall_at_precision_eq [1/2, 1/2, 1/4, 3/4] [1, 0, 1, 0] (1/2) (by decide +kernel) (by decide +kernel)
+  ⟨m, t, h, hm⟩
+example : Spec.Curve.recallAtPrecision (posLS [1/2, 1/2, 1/4, 3/4] [1, 0, 1, 0]) (1/2) = some 1 := by decide +kernel
+
+/-! ## (d) multiclass / multilabel forms = the binary form per class / label, then the average -/
+
+/-- one row of the vectorised `_multiclass_precision_recall_curve_compute`
+    returns what `_compute_for_each_class` returns on the same sorted samples —
+    for every input (any masses, any ties), including the failure on no samples. -/
+theorem multiclass_prcurve_row_eq (srt : List Pt) : mcPrCurveSorted srt = prCurveSorted srt :=
+  mcPrCurveSorted_eq srt
+
+/-- multiclass precision-recall curves = the definition's curve of every
+    one-vs-rest problem (class `c` positive iff the target is `c`). -/
+theorem multiclass_prcurve_eq (cols : List (List Q)) (labs : List Q)
+    (hne : ∀ col ∈ cols, col.zip labs ≠ []) :
+    multiclassPrCurve cols labs = .ok (cols.zipIdx.map fun cc =>
+      ⟨(prCurve (ovrLS cc.2 cc.1 labs)).precision.map XQ.val,
+       (prCurve (ovrLS cc.2 cc.1 labs)).recall.map XQ.val,
+       (prCurve (ovrLS cc.2 cc.1 labs)).thresholds⟩) := by
+  unfold multiclassPrCurve
+  apply mapM_ok
+  intro cc hcc
+  rw [mcPrCurveSorted_eq, ovrPts_eq_lsPt]
+  exact prCurveSorted_eq _ _ (sortDesc_perm _) (sortDesc_desc _)
+    (by simpa [ovrLS] using hne cc.1 (mem_zipIdx_fst hcc))
+
+example : multiclassPrCurve [[1/2, 1/2], [1/2, 1/4]] [0, 1]
+    = .ok [⟨[.val (1/2), .val 1], [.val 1, .val 0], [1/2]⟩,
+           ⟨[.val (1/2), .val 0, .val 1], [.val 1, .val 0, .val 0], [1/4, 1/2]⟩] := by
+  rw [multiclass_prcurve_eq _ _ (by decide +kernel)]; exact congrArg _ (by decide +kernel)
+
+/-- multilabel precision-recall curves = the definition's curve of every label column. -/
+theorem multilabel_prcurve_eq (cols : List (List Q × List Q)) (hne : ∀ c ∈ cols, posLS c.1 c.2 ≠ []) :
+    multilabelPrCurve cols = .ok (cols.map fun c =>
+      ⟨(prCurve (posLS c.1 c.2)).precision.map XQ.val, (prCurve (posLS c.1 c.2)).recall.map XQ.val,
+       (prCurve (posLS c.1 c.2)).thresholds⟩) := by
+  unfold multilabelPrCurve
+  apply mapM_ok
+  intro c hc
+  exact prCurve_model_eq_spec _ _ (hne c hc)
+
+example : multilabelPrCurve [([1/2, 1/2], [1, 0]), ([1/2, 1/4], [0, 0])]
+    = .ok [⟨[.val (1/2), .val 1], [.val 1, .val 0], [1/2]⟩,
+           ⟨[.val 0, .val 0, .val 1], [.val 1, .val 1, .val 0], [1/4, 1/2]⟩] := by
+  rw [multilabel_prcurve_eq _ (by decide +kernel)]; exact congrArg _ (by decide +kernel)
+
+/-- multiclass AUPRC: per-class one-vs-rest AUPRC, then `average` (`none`: the
+    vector; `macro`: the unweighted mean). -/
+theorem multiclass_auprc_eq (cols : List (List Q)) (labs : List Q) (avg : Avg)
+    (hne : ∀ col ∈ cols, col.zip labs ≠ []) :
+    multiclassAuprc cols labs avg
+      = .ok (averaged avg (cols.zipIdx.map fun cc => auprc (ovrLS cc.2 cc.1 labs))) := by
+  unfold multiclassAuprc
+  rw [multiclass_prcurve_eq cols labs hne]
+  simp only [bind, Except.bind, List.map_map]
+  rw [← averagedX_val, List.map_map]
+  apply congrArg
+  apply congrArg
+  apply List.map_congr_left
+  intro cc _
+  exact auprcOf_curveX (prCurve (ovrLS cc.2 cc.1 labs))
+
+/-- multilabel AUPRC: per-label binary AUPRC, then `average`. -/
+theorem multilabel_auprc_eq (cols : List (List Q × List Q)) (avg : Avg)
+    (hne : ∀ c ∈ cols, posLS c.1 c.2 ≠ []) :
+    multilabelAuprc cols avg = .ok (averaged avg (cols.map fun c => auprc (posLS c.1 c.2))) := by
+  unfold multilabelAuprc
+  rw [multilabel_prcurve_eq cols hne]
+  simp only [bind, Except.bind, List.map_map]
+  rw [← averagedX_val, List.map_map]
+  apply congrArg
+  apply congrArg
+  apply List.map_congr_left
+  intro c _
+  exact auprcOf_curveX (prCurve (posLS c.1 c.2))
+
+/-- what `average` means. -/
+theorem averaged_def (per : List Q) :
+    averaged .none per = per.map XQ.val ∧ averaged .macro per = [xdiv per.sum per.length] :=
+  ⟨rfl, rfl⟩
+
+example : multiclassAuprc [[1/2, 1/2], [1/2, 1/4]] [0, 1] .macro = .ok [.val (1/2)] := by
+  rw [multiclass_auprc_eq _ _ _ (by decide +kernel)]; exact congrArg _ (by decide +kernel)
+example : multilabelAuprc [([1/2, 1/2], [1, 0]), ([1/2, 1/4], [0, 1])] .none = .ok [.val (1/2), .val (1/2)] := by
+  rw [multilabel_auprc_eq _ _ (by decide +kernel)]; exact congrArg _ (by decide +kernel)
+
+/-- multilabel recall at fixed precision: the binary routine on every label column. -/
+theorem multilabel_recall_at_precision_eq (cols : List (List Q × List Q)) (minP : Q)
+    (hne : ∀ c ∈ cols, posLS c.1 c.2 ≠ []) :
+    multilabelRecallAtPrecision cols minP = cols.mapM fun c => binaryRecallAtPrecision c.1 c.2 minP := by
+  unfold multilabelRecallAtPrecision
+  rw [multilabel_prcurve_eq cols hne]
+  simp only [bind, Except.bind, List.mapM_map]
+  apply mapM_congr
+  intro c hc
+  unfold binaryRecallAtPrecision
+  rw [prCurve_model_eq_spec _ _ (hne c hc)]
+  rfl
+
+/-! ## (e) degenerate conventions of the curve functionals -/
+
+/-- no positive sample: every recall of the curve is `1` (the code's
+    `nan_to_num(1.0)` of `0/0`), the appended point keeps recall `0`. -/
+theorem prCurve_no_positive (ls : List LS) (h : nPos ls = 0) :
+    (prCurve ls).recall = (prCurve ls).thresholds.map (fun _ => 1) ++ [0] := by
+  simp [prCurve, recallAt, h]
+
+/-- …and then every precision is `0`, hence AUPRC = 0. -/
+theorem auprc_no_positive (ls : List LS) (hne : ls ≠ []) (h : nPos ls = 0) : auprc ls = 0 := by
+  have hr := prCurve_no_positive ls h
+  have hp : (prCurve ls).precision = (prCurve ls).thresholds.map (fun _ => 0) ++ [1] := by
+    simp only [prCurve]
+    congr 1
+    apply List.map_congr_left
+    intro t _
+    have : tpAt ls t = 0 := by have := tpAt_le_nPos ls t; omega
+    simp [precisionAt, this, Rat.div_def, Rat.zero_mul]
+  have hT : (prCurve ls).thresholds ≠ [] := by
+    intro e
+    obtain ⟨x, hx⟩ := List.exists_mem_of_ne_nil ls hne
+    have := ((prCurve_one_point_per_distinct_score ls).2.1 x.1).mpr ⟨x, hx, rfl⟩
+    rw [e] at this; simp at this
+  unfold auprc
+  rw [hr, hp]
+  exact stepSum_ones_zeros _ hT
+
+example : auprc [(1/2, false), (1/4, false)] = 0 := auprc_no_positive _ (by decide +kernel) (by decide +kernel)
+
+/-- no sample at all: the real code fails (`num_tp[-1]` on an empty tensor). -/
+theorem prCurve_empty (ts : List Q) : binaryPrCurve [] ts = .error .runtime := by
+  unfold binaryPrCurve posPts sortDesc
+  simp [prCurveSorted_nil]
+
+/-- a bound above 1 leaves no candidate: `torch.max` of an empty tensor raises
+    (the public functionals reject such a bound earlier with `ValueError`). -/
+theorem recall_at_precision_bound_above_one (xs ts : List Q) (minP : Q) (hne : posLS xs ts ≠ [])
+    (hp : 1 < minP) : binaryRecallAtPrecision xs ts minP = .error .runtime := by
+  unfold binaryRecallAtPrecision
+  rw [prCurve_model_eq_spec xs ts hne]
+  simp only [bind, Except.bind, TE.Curve.recallAtPrecision, allQ?_map_val]
+  have : ((prCurve (posLS xs ts)).recall.zip (prCurve (posLS xs ts)).precision).filter
+      (fun rp => decide (minP ≤ rp.2)) = [] := by
+    apply List.filter_eq_nil_iff.mpr
+    intro rp hrp
+    have h1 := precision_le_one (posLS xs ts) rp.2 (List.of_mem_zip hrp).2
+    simp only [decide_eq_true_eq]
+    grind
+  rw [this]
+  rfl
+
+example : binaryRecallAtPrecision [1/2, 1/4] [1, 0] 2 = .error .runtime :=
+  recall_at_precision_bound_above_one _ _ _ (by decide +kernel) (by decide +kernel)
 
 end TE.C05
